@@ -18,7 +18,7 @@ func init() {
 			"(b) in both improvement loops the snapshot into lastModel is taken before the cost is computed and before the result is published, with no writer of Solver.model in between, so the reported cost and the reported model belong together; " +
 			"(c) the constant results are returned under the stated conditions: Minimize -1 / Optimal Status Unsat exactly when the first Solve reports Unsat, 0 / (Sat, Weight 0) when there is no cost function.",
 		NotDecided: "optimality itself (a for-all over models), the interaction of the added constraint with top-level facts, negative coefficients (D13), nil weights (D19); nothing is executed.",
-		Rules:      []ruleFn{ruleR3_1, ruleR3_2, ruleR3_3, ruleR3_5, ruleR9_4, ruleR9_5, ruleR9_6, ruleR2_5, ruleR2_9, ruleR13_9, ruleR3_6, ruleR3_7, ruleR9_7, ruleR3_8, ruleR9_11},
+		Rules:      []ruleFn{ruleR3_1, ruleR3_2, ruleR3_3, ruleR3_5, ruleR9_4, ruleR9_5, ruleR9_6, ruleR2_5, ruleR2_9, ruleR13_9, ruleR3_6, ruleR3_7, ruleR9_7, ruleR3_8, ruleR9_11, ruleR2_2},
 		Fixtures:   []func(*World) []string{fixtureE7},
 	})
 }
